@@ -1,10 +1,11 @@
 package main
 
 import (
-	"go/token"
 	"fmt"
 	"go/ast"
+	"go/token"
 	"go/types"
+	"golang.org/x/tools/go/cfg"
 	"strings"
 
 	"golang.org/x/tools/go/packages"
@@ -410,12 +411,51 @@ func (p *Prog) errSitesInScope(r *Report, rule string, scope []string, base call
 		in[k] = true
 	}
 	nBase := 0
+	doneIter := map[string]bool{}
 	for _, k := range scope {
 		fi := p.Func(k)
 		if fi == nil {
 			continue
 		}
 		f := p.FlatOf(fi)
+		// a loop over an iterator of the module that yields (value, error): the base calls inside the iterator are
+		// judged there (yielding the error is delivery), the loop variable is a derived source here
+		for _, rs := range rangeLoops(fi.Decl.Body) {
+			ic, ok := ast.Unparen(rs.X).(*ast.CallExpr)
+			if !ok || rs.Value == nil {
+				continue
+			}
+			lit, yield := p.errIterator(fi.Pkg, ic)
+			if lit == nil {
+				continue
+			}
+			lf := p.FlatOf(lit)
+			inLit := 0
+			for _, n := range lf.Nodes {
+				if n.Ast == nil {
+					continue
+				}
+				for _, c := range callsIn(n.Ast, false) {
+					if !base.fn(lit.Pkg, c) {
+						continue
+					}
+					inLit++
+					if !doneIter[lit.Key] {
+						nBase++
+						o := optsFor(true)
+						o.SinkParams = map[types.Object]bool{yield: true}
+						lf.SiteConsumed(r, rule, fmt.Sprintf("%s#source/%s", lit.Key, types.ExprString(c.Fun)), lit, lf.bindOf(n, c), o)
+					}
+				}
+			}
+			doneIter[lit.Key] = true
+			if inLit == 0 {
+				continue
+			}
+			if eo := objOf(fi.Pkg.TypesInfo, rs.Value); eo != nil && isErrorType(eo.Type()) {
+				f.RangeErrConsumed(r, rule, fmt.Sprintf("%s#iterator/%s", k, types.ExprString(ic.Fun)), fi, rs, eo, optsFor(false))
+			}
+		}
 		for _, n := range f.Nodes {
 			if n.Ast == nil {
 				continue
@@ -633,4 +673,57 @@ func (p *Prog) carrierCtor(pkg *packages.Package, c *ast.CallExpr, arg int) stri
 		}
 	}
 	return ""
+}
+
+// errIterator: the call is of a module function that returns a range-over-func iterator whose last yielded value is
+// an error (func Chunks(s) iter.Seq2[[]byte, error] { return func(yield func([]byte, error) bool) {...} }). It
+// returns the literal as a pseudo function and its yield parameter.
+func (p *Prog) errIterator(pkg *packages.Package, c *ast.CallExpr) (*FuncInfo, types.Object) {
+	h := p.staticCallee(pkg, c)
+	if h == nil || h.Decl == nil || h.Decl.Body == nil || len(h.Decl.Body.List) == 0 {
+		return nil, nil
+	}
+	rs, ok := h.Decl.Body.List[len(h.Decl.Body.List)-1].(*ast.ReturnStmt)
+	if !ok || len(rs.Results) != 1 {
+		return nil, nil
+	}
+	lit, ok := ast.Unparen(rs.Results[0]).(*ast.FuncLit)
+	if !ok || lit.Type.Params.NumFields() != 1 || len(lit.Type.Params.List[0].Names) != 1 {
+		return nil, nil
+	}
+	yo := h.Pkg.TypesInfo.Defs[lit.Type.Params.List[0].Names[0]]
+	if yo == nil {
+		return nil, nil
+	}
+	ysig, ok := yo.Type().Underlying().(*types.Signature)
+	if !ok || ysig.Params().Len() == 0 || !isErrorType(ysig.Params().At(ysig.Params().Len()-1).Type()) {
+		return nil, nil
+	}
+	return h.LitInfo(lit, 1), yo
+}
+
+// RangeErrConsumed: the error variable of "for v, err := range iterator(...)" is handled in every iteration: on every
+// path through the body on which it may be non-nil it is consumed (returned with its class, delivered), and the loop
+// does not go on to the next element with it pending.
+func (f *Flat) RangeErrConsumed(r *Report, rule, cons string, fi *FuncInfo, rs *ast.RangeStmt, E types.Object, o flowOpts) bool {
+	p := f.P
+	A := -1
+	for b, id := range f.first {
+		if b.Kind == cfg.KindRangeBody && b.Stmt == rs {
+			A = id
+		}
+	}
+	if A < 0 {
+		r.Undecided(rule, cons, p.pos(rs), "the body of the loop over the iterator was not found in the flow graph")
+		return false
+	}
+	res := f.errorConsumed(fi, A, E, o)
+	if res.OK {
+		st := f.ErrStatesFrom(A, E)
+		if head := f.loopHeadStmt(rs); head >= 0 && len(st.at(head)) > 0 {
+			res = flowResult{OK: false, Detail: "the loop goes on to the next element while the error may be non-nil", Pos: p.pos(rs)}
+		}
+	}
+	r.Check(res.OK, rule, cons, p.pos(rs), "the error the iterator yields is consumed in every iteration", "the error yielded by the iterator is lost: "+res.Detail)
+	return res.OK
 }
